@@ -264,7 +264,10 @@ Case(ct, p, z, o, r, h) == [ct |-> ct, prog |-> p, sizes |-> z, out |-> o, req |
 RespOutcomes == {Ok} \cup {Err1(c, m) : c \in Codes, m \in Msgs}
 
 \* chain mode
-ChainCodes == {NoCode, [k |-> "num", v |-> T("0")], [k |-> "num", v |-> T("7")], [k |-> "str", v |-> T("not_found")]}
+\* "odd": a method named Code whose signature is neither Code() uint64 nor Code() string (it takes a parameter, is
+\* variadic, or returns two values): both extraction loops ignore it
+ChainCodes == {NoCode, [k |-> "num", v |-> T("0")], [k |-> "num", v |-> T("7")], [k |-> "str", v |-> T("not_found")],
+               [k |-> "odd", v |-> T("odd")]}
 InnerLinks == {[cause |-> "next", unwrap |-> "no"], [cause |-> "no", unwrap |-> "next"],
                [cause |-> "next", unwrap |-> "nil"], [cause |-> "nil", unwrap |-> "next"]}
 LastLinks(n) == {[cause |-> "no", unwrap |-> "no"], [cause |-> "nil", unwrap |-> "no"], [cause |-> "no", unwrap |-> "nil"],
